@@ -29,6 +29,14 @@ CHECKS = {
              "ordinate in its semantic dimension and demands the exact min/max there, which decides order-independence and Z/M separation on explored inputs.",
         note=NOTE_COMMON + "Partial: the order-independence statement for Extend sequences is not yet a theorem (oracle + correspondence only).",
     ),
+    "C09": dict(
+        technique="Lean 4 theorems over any commutative ring (loop = sum over vertex pairs; telescoping trapezoid = shoelace; additivity; totality) + bit-exact float correspondence + exact rational oracle",
+        text="Theorems (exact arithmetic, every stride >= 2, every nesting shape incl. empty rings/polygons anywhere): the area loops equal the sum of trapezoid "
+             "terms over consecutive XY pairs, which for a closed ring is the shoelace sum (C09_trapezoid_is_shoelace, C09_ring_area); Polygon and MultiPolygon "
+             "measures are sums over parts and never panic (C09_*_additive); points/lines have zero area. The float behaviour is tied by running the same "
+             "definitions on IEEE doubles (bit-for-bit equal to Go each run) and the rounding bound is checked per input in rational arithmetic.",
+        note=NOTE_COMMON + "Partial: the (n+c)*2^-52 forward error bound is checked on explored inputs, not proved; StdModel rounding analysis not formalised.",
+    ),
 }
 
 _PENDING = "check not built yet in this session (work in progress; see DESIGN.md §9 build order)"
